@@ -578,6 +578,6 @@ def run(chk, replay=None):
                  "run against the real cache on every check)",
                  "the semantics of the statement language (Vita/C04/Lang.lean) and the classification of call-site "
                  "atoms (change / clear / eval / load) in the translator",
-                 "hand-written model of cache::save / load (Vita/C04/Model.lean; validated by the differential run)",
+                 "cache::save / load are translated at TOKEN level (Vita/C04/IO.lean): that a read meeting a token of another kind fails, and what bytes one token is, are assumptions here (C11's subject), exercised by the dump / loadcut operations of the differential run",
                  "harness/c04_cache.cc, harness/c04_callsite.cc + g++ 12 ASan/UBSan",
                  "text round trip of finite doubles and 64-bit integers through iostreams (C11)"])
